@@ -275,6 +275,15 @@ fn run_path<A: DShape, B: DShape>(g: &mut Grid, path: &[Op]) {
                     b.get() as *const B as usize
                 }
             };
+            let via_as = match (u.as_first(), u.as_second()) {
+                (Some(b), None) => b.get() as *const A as usize,
+                (None, Some(b)) => b.get() as *const B as usize,
+                _ => 0,
+            };
+            if via_as != addr {
+                g.fail("payload-address-as-variant", &hist(k), format!("union #{}: as_first/as_second expose {:#x}, borrow() exposes {:#x}", i, via_as, addr));
+                return;
+            }
             if addr != blk + off || addr & 1 != 0 {
                 g.fail("payload-address", &hist(k), format!("union #{} exposes payload at {:#x}, the source Arc's value lives at {:#x}", i, addr, blk + off));
                 return;
@@ -289,6 +298,9 @@ fn run_path<A: DShape, B: DShape>(g: &mut Grid, path: &[Op]) {
                 let same = m.us[j] == (first, on_a);
                 if ArcUnion::ptr_eq(u, v) != same {
                     g.fail(if same_variant { "ptr-eq" } else { "ptr-eq-across-variants" }, &hist(k), format!("ptr_eq(#{}, #{}) = {} but (same variant, same allocation) = ({}, {})", i, j, !same, same_variant, m.us[j].1 == on_a));
+                }
+                if (u != v) == (u == v) {
+                    g.fail("eq-ne-incoherent", &hist(k), format!("union #{} vs #{}: == is {} and != is {}", i, j, u == v, u != v));
                 }
                 if !same_variant && u == v {
                     g.fail("eq-across-variants", &hist(k), format!("union #{} == union #{} although they hold different variants (allocations {} / {})", i, j, if on_a { "A" } else { "B" }, if m.us[j].1 { "A" } else { "B" }));
